@@ -327,18 +327,20 @@ func (s *Service) accountsForEpochWithFilter(ctx context.Context, epoch phase0.E
 		api.ValidatorStateWithdrawalDone:     0,
 	}
 
+	// The accounts map and the list of public keys are replaced together, never altered, by a refresh:
+	// work from one snapshot of both so that every public key has its account.
 	s.mutex.RLock()
 	pubKeys := s.pubKeys
+	accounts := s.accounts
 	s.mutex.RUnlock()
 
 	validators := s.validatorsManager.ValidatorsByPubKey(ctx, pubKeys)
 	validatingAccounts := make(map[phase0.ValidatorIndex]e2wtypes.Account, len(validators))
-	s.mutex.RLock()
 	for index, validator := range validators {
 		state := api.ValidatorToState(validator, nil, epoch, s.farFutureEpoch)
 		stateCount[state]++
 		if filterFunc(state) {
-			account := s.accounts[validator.PublicKey]
+			account := accounts[validator.PublicKey]
 			s.log.Trace().
 				Str("name", account.Name()).
 				Str("public_key", fmt.Sprintf("%x", account.PublicKey().Marshal())).
@@ -353,7 +355,6 @@ func (s *Service) accountsForEpochWithFilter(ctx context.Context, epoch phase0.E
 				Msg(fmt.Sprintf("Non-%s account", strings.ToLower(accountType)))
 		}
 	}
-	s.mutex.RUnlock()
 
 	// Update metrics if this is the current epoch.
 	if epoch == s.currentEpochProvider.CurrentEpoch() {
@@ -388,8 +389,11 @@ func (s *Service) accountsForEpochByIndexWithFilter(ctx context.Context, epoch p
 	))
 	defer span.End()
 
+	// The accounts map and the list of public keys are replaced together, never altered, by a refresh:
+	// work from one snapshot of both so that every public key has its account.
 	s.mutex.RLock()
 	pubKeys := s.pubKeys
+	accounts := s.accounts
 	s.mutex.RUnlock()
 
 	indexPresenceMap := make(map[phase0.ValidatorIndex]bool)
@@ -404,9 +408,7 @@ func (s *Service) accountsForEpochByIndexWithFilter(ctx context.Context, epoch p
 		}
 		state := api.ValidatorToState(validator, nil, epoch, s.farFutureEpoch)
 		if filterFunc(state) {
-			s.mutex.RLock()
-			validatingAccounts[index] = s.accounts[validator.PublicKey]
-			s.mutex.RUnlock()
+			validatingAccounts[index] = accounts[validator.PublicKey]
 		}
 	}
 
